@@ -1,4 +1,5 @@
 import ThunderProofs.Sql.Live
+import ThunderProofs.Sql.ColMap
 /-!
 # C07 — Live SQL: every committed write reaches every live query it affects
 
@@ -98,5 +99,41 @@ theorem read_before_register_misses_write :
 theorem read_requires_registration (s : St) (k : Nat) (x : LQ) (hx : s.qs[k]? = some x)
     (hreg : x.registered = false) : step repaired s (.read k) = none := by
   simp [step, hx, hreg, repaired]
+
+/-! ### schema changes: which events are decodable (`ThunderModel/Sql/ColMap.lean`) -/
+
+open TM.Sql in
+/-- **Across schema changes every rows event is decoded with the column order it was written
+under**: for any change log of a table in which rows events belong to the version announced last,
+a repeated table id announces the same version, and a column map that has to be fetched is fetched
+while the database still has the event's version, the poll loop (which drops its kept map on a
+table map event with a new id) decodes every rows event with the map of that event's own version. -/
+theorem schema_change_decodes_right (v0 : Nat) (L : List ColMap.Ev) (h : ColMap.wf v0 none false L = true) :
+    ColMap.allRight L (ColMap.run ColMap.repaired {} L) = true :=
+  ColMap.allRight_of_wf L {} v0 h (by intro c hc; cases hc)
+
+open TM.Sql in
+/-- the hypotheses are satisfiable with content: rows, a change of the schema announced by a new
+table id, rows in the new order, a repeated table id, rows again -/
+example : ColMap.wf 0 none false [.rows 0 0, .rows 0 0, .tmap 11 1, .rows 1 1, .tmap 11 1, .rows 1 2, .tmap 12 2, .rows 2 2] = true := by
+  decide
+
+open TM.Sql in
+/-- **Keeping the map across a table map event with a new id decodes garbage**: the same discipline,
+a change of the column order (same number of columns): without the flush the rows written under the
+new order are decoded with the old map, and since the widths agree no error is raised. -/
+theorem no_flush_decodes_garbage :
+    ∃ L, ColMap.wf 0 none false L = true ∧ ColMap.allRight L (ColMap.run ColMap.noFlush {} L) = false ∧
+      ColMap.run ColMap.noFlush {} L = [.decoded true 0, .none, .decoded false 0] ∧
+      ColMap.decode (fun _ => 5) 0 1 = .garbage :=
+  ⟨[.rows 0 0, .tmap 11 1, .rows 1 1], by decide, by decide, by decide, by decide⟩
+
+open TM.Sql in
+/-- a map of another version with another number of columns never decodes silently: it is an error
+(and an undecodable event invalidates every live query of its table, `undecodable_invalidates_table`) -/
+theorem wrong_width_is_error (width : Nat → Nat) (c v : Nat) (hw : width c ≠ width v) :
+    ColMap.decode width c v = .error := by
+  have hcv : c ≠ v := by intro h; rw [h] at hw; exact hw rfl
+  simp [ColMap.decode, hcv, hw]
 
 end TM.Properties.C07
